@@ -11,7 +11,11 @@ BINDING_VARIANTS = [BINDINGS, BINDINGS, "=urn:u1;p=urn:u1;q=urn:u2", "=urn:u2;p=
                     "=urn:u2;p=urn:u2;!;!p;p=urn:u1;q=urn:u2", "p=urn:u1;q=urn:u2;z=urn:u1;!z",
                     # ... or bind a prefix (or the default) AGAIN without taking it out first: the later binding replaces the
                     # earlier one for every kind of name test (round-6 seed C05-H: QName tests kept the oldest binding)
-                    "p=urn:u2;q=urn:u1;p=urn:u1;q=urn:u2", "=urn:u2;p=urn:u9;=urn:u1;p=urn:u1;q=urn:u2"]
+                    "p=urn:u2;q=urn:u1;p=urn:u1;q=urn:u2", "=urn:u2;p=urn:u9;=urn:u1;p=urn:u1;q=urn:u2",
+                    # ... or take out a binding that is neither the only one nor the last of three or more (round-7 seed C10-J kept the
+                    # bindings sorted and removed with swap_remove)
+                    "=urn:u9;a=urn:u8;p=urn:u1;q=urn:u2;!", "a=urn:u8;p=urn:u1;q=urn:u2;z=urn:u7;!a;!z",
+                    "z=urn:u7;p=urn:u9;q=urn:u2;b=urn:u6;!p;p=urn:u1;!z;!b", "=urn:u9;a=urn:u8;b=urn:u7;p=urn:u1;q=urn:u2;!a;!;!b"]
 
 
 def strip_impl(field):
